@@ -7,7 +7,6 @@ package main
 // decoded stream the same way: lean/Comet/Driver/Codec.lean).
 
 import (
-	"bytes"
 	"encoding/hex"
 	"fmt"
 	"io"
@@ -76,6 +75,9 @@ type cdcAnyIndex struct {
 	hyb  comet.HybridSearchIndex
 	sub  *cdcAnyIndex // hybrid: wrapper of the vector sub-index
 	lvls []int        // hnsw: queue of levels for the next adds
+	// field boundaries and (hybrid) part lengths of the stream the last writeTo produced
+	bounds []int
+	pieces []int
 }
 
 func cdcNewVecIndex(p cdcCparams) (comet.VectorIndex, error) {
@@ -283,24 +285,35 @@ func (a *cdcAnyIndex) apply(c cdcCcmd) string {
 // writeTo returns the stream(s) and the reported count (-1 for hybrid, which reports none).
 // For hybrid the four streams are returned separately; stream is their concatenation.
 func (a *cdcAnyIndex) writeTo() (stream []byte, four [][]byte, count int64, err error) {
-	var buf bytes.Buffer
+	// through boundary-recording writers: a.bounds are the end offsets of all writes (field
+	// boundaries) of the last stream, a.pieces the lengths of the hybrid's four streams
+	var w cdcBoundaryWriter
+	a.bounds, a.pieces = nil, nil
 	switch a.p.Kind {
 	case "bm25":
-		count, err = a.bm.WriteTo(&buf)
+		count, err = a.bm.WriteTo(&w)
 	case "meta":
-		count, err = a.md.WriteTo(&buf)
+		count, err = a.md.WriteTo(&w)
 	case "hybrid":
-		var h, v, t, m bytes.Buffer
-		err = a.hyb.WriteTo(&h, &v, &t, &m)
-		four = [][]byte{h.Bytes(), v.Bytes(), t.Bytes(), m.Bytes()}
-		for _, b := range four {
-			buf.Write(b)
+		var ws [4]cdcBoundaryWriter
+		err = a.hyb.WriteTo(&ws[0], &ws[1], &ws[2], &ws[3])
+		off := 0
+		for i := range ws {
+			b := append([]byte(nil), ws[i].buf.Bytes()...)
+			four = append(four, b)
+			stream = append(stream, b...)
+			for _, e := range ws[i].ends {
+				a.bounds = append(a.bounds, off+e)
+			}
+			off += len(b)
+			a.pieces = append(a.pieces, len(b))
 		}
-		count = -1
+		return stream, four, -1, err
 	default:
-		count, err = a.vec.WriteTo(&buf)
+		count, err = a.vec.WriteTo(&w)
 	}
-	return buf.Bytes(), four, count, err
+	a.bounds = w.ends
+	return w.buf.Bytes(), four, count, err
 }
 
 func (a *cdcAnyIndex) readFrom(r io.Reader) (int64, error) {
@@ -318,6 +331,11 @@ func (a *cdcAnyIndex) readFrom(r io.Reader) (int64, error) {
 // cdcReadOutcome feeds b to a fresh index of parameters p under recover and reports
 // 'e' (error), 'o' (success) or 'p' (panic), with the index that was used.
 func cdcReadOutcome(p cdcCparams, b []byte) (out byte, idx *cdcAnyIndex, msg string) {
+	return cdcReadOutcomeVia(p, b, 0, 0, nil, nil)
+}
+
+// cdcReadOutcomeVia does the same through a reader of the given mode (codec_readers.go).
+func cdcReadOutcomeVia(p cdcCparams, b []byte, mode int, seed uint64, bounds, pieces []int) (out byte, idx *cdcAnyIndex, msg string) {
 	idx, err := cdcNewAnyIndex(p)
 	if err != nil {
 		return 'p', nil, "constructor: " + err.Error()
@@ -328,7 +346,7 @@ func cdcReadOutcome(p cdcCparams, b []byte) (out byte, idx *cdcAnyIndex, msg str
 			out, msg = 'p', fmt.Sprint(r)
 		}
 	}()
-	if _, err := idx.readFrom(bytes.NewReader(b)); err != nil {
+	if _, err := idx.readFrom(cdcWrapReader(mode, seed, b, bounds, pieces)); err != nil {
 		return 'e', idx, err.Error()
 	}
 	return 'o', idx, ""
